@@ -204,7 +204,9 @@ func loadSeqRule(trn int64, res, via string, rule *flow.Rule) {
 		hx.Fatal("scenario %d: load rule: %v", trn, err)
 	}
 	if len(flow.GetRulesOfResource(res)) != 1 {
-		hx.Fatal("scenario %d: rule was not accepted", trn)
+		if verr := flow.IsValidRule(rule); verr != nil { // a valid rule that is not in force is the library's doing: judged
+			hx.Fatal("scenario %d: rule was not accepted: %v", trn, verr)
+		}
 	}
 }
 
@@ -395,7 +397,11 @@ func list(s hx.M, tr *hx.Trace, clk *hx.VClock) {
 		hx.Fatal("scenario %d: load rules: %v", trn, err)
 	}
 	if len(flow.GetRulesOfResource(res)) != len(rules) {
-		hx.Fatal("scenario %d: not every rule was accepted", trn)
+		for _, fr := range rules { // valid rules that are not in force are the library's doing: judged
+			if verr := flow.IsValidRule(fr); verr != nil {
+				hx.Fatal("scenario %d: not every rule was accepted: %v", trn, verr)
+			}
+		}
 	}
 	tr.Emit(hx.M{"op": "newl", "tr": trn, "tol": 1, "list": evs})
 	for i, x := range s["reqs"].([]interface{}) {
